@@ -39,3 +39,11 @@ claim("C02", "PathModel.tla defines resolution (fold of '..' from the root, norm
       "TLC evaluation of PathModel on exhaustively enumerated get_paths pairs + TLA+ trace validation at the wire",
       note="Trusted base: TLC; the harness's splitting of strings on '/' and '\\\\'; pathlib.Pure*Path as the representation of bases (no "
            "real Windows file system is involved); CPython 3.12 pathlib join semantics.")
+claim("C18", "FsOps.tla / FsModel.tla state the storage contract (result-or-failure and effect of every AbstractPathIO operation, open "
+      "handles with POSIX inode semantics). API level: every single operation and seeded sequences are executed on PathIO and "
+      "AsyncPathIO, compared step by step with each other (the property is relational: a difference is the violation) and judged by "
+      "FsModel in TLC (a difference there is a specification error, exit 2). FTP level: the same seeded sessions run on all three "
+      "backends; each execution is validated against FtpCore (which embeds the same contract) and reply codes and trees are compared "
+      "across backends.", "TLC judgement of recorded backend operation sequences (FsModel) + three-way differential + FtpCore trace validation",
+      note="Trusted base: TLC; a temporary directory on the sandbox file system stands for 'the real file system'; AsyncPathIO runs "
+           "with an inline executor (no threads).")
